@@ -17,12 +17,26 @@ RULE = ('stream args: selection arguments (all/empty/comma strings with blanks/l
         'data_lost, weights=, dumps/channels/pol/ants/corrprods/reset); after EVERY call d.raw_flags, d.flags, d.vis '
         'and d.weights are compared with the extracted model; a case is one (data set, history prefix), non-trivial '
         'when the data set has a lost chunk or an invalid correction inside the current selection, distinct by '
-        '(configuration, step)')
+        '(configuration, step).  stream concat: ConcatenatedDataSet of 2-3 members (v4+v4, v3+v3, v2+v2, v3+v4; stored '
+        'flag bytes cover 0..255 in every member; v4 members with a lost chunk or opened with applycal; members '
+        'optionally pre-selected on their own with flags= / weights= before the concatenation; shuffled input order) '
+        'under a history of 6-20 select() calls on the whole (flags= in every spelling incl. the empty ones \'\', [], (); '
+        'weights=; dumps / channels / pol / reset; calls without flags=) and directly on members; right after '
+        'construction and after EVERY call the glued flags / weights / vis, every member\'s _flags_select / '
+        '_weights_select, its own flags and (v4) raw_flags are compared with the model of the selection plumbing '
+        '(wire 162) and with the spec mask of the last flags= given to the whole; a case is one (concatenation, '
+        'history prefix), non-trivial when some selected raw byte is non-zero, distinct by (configuration, step)')
 ASSUMPTIONS = ['v2/v3 files without a flags_description table (the default description is flags.NAMES)',
                'v4cal stream: which samples carry an invalid correction is computed from the generated cal solutions '
                '(G constant in time, B piecewise constant in time with NaN only at band edges or for whole inputs); '
                'the general derivation of corrections from solutions is C13/C14',
-               'v4cal stream: correction factors are powers of two, so vis and weights are compared exactly']
+               'v4cal stream: correction factors are powers of two, so vis and weights are compared exactly',
+               'concat stream: all members of a concatenation lie in one subarray and one spectral window (checked when '
+               'the fixture is built); the time / frequency / product selection of the whole is taken from the data set '
+               '(dumps, channels, _corrprod_keep) - that it is right is C02 / C19; vis and weights are compared with what '
+               'the freshly concatenated data set showed (the property only says they do not change)',
+               'selection arguments are the documented spellings: a string, or a list / tuple of strings (not None, not a '
+               'one-shot iterator)']
 
 DOC = ['reserved0', 'static', 'cam', 'data_lost', 'ingest_rfi', 'predicted_rfi', 'cal_rfi', 'postproc']
 
@@ -164,6 +178,7 @@ def check_selection(ctx, fmt, d, stored, lost, arg, mouts):
 
 
 def run(ctx):
+    del _INCOQ[:]
     args = gen_args(ctx)
     mcases = [[16, [1, wire_arg(a)]] for a in args]
     mouts = ctx.model(mcases) if ctx.model_ok else None
@@ -226,6 +241,16 @@ def run(ctx):
     n = ctx.scale(10, 90)
     for i in range(n):
         run_concat(ctx, gen_concat(ctx.rng, ctx.tier, force=CONCAT_FORCED[i] if i < len(CONCAT_FORCED) else None))
+    if ctx.tier == 'thorough' and ctx.model_ok and not ctx.searching:
+        # extraction cross-check: the same cases through vm_compute inside Coq
+        from vh import core
+        sample = _INCOQ[:40] + list(zip(mcases[:40], (mouts or [])[:40]))
+        outs = core.run_model_in_coq([c for c, _ in sample], 'c16')
+        for (c, o), oc in zip(sample, outs):
+            if o != oc:
+                ctx.disagree('what=extraction_vs_coq;wire=%d' % c[0], dict(wire=c), o, oc,
+                             'extracted OCaml model and vm_compute inside Coq differ', kind='tie')
+        ctx.extra['cases_rechecked_in_coq'] = len(sample)
 
 
 def spec_py(a):
@@ -740,6 +765,7 @@ def run_v4cal(ctx, cfg):
 # stream concat: ConcatenatedDataSet of v4 / v3 / v2 members under histories of flag / weight selections
 # ---------------------------------------------------------------------------------------------------------------
 FMT_CODE = {'v4': 4, 'v3': 3, 'v2': 2}
+_INCOQ = []     # (wire case, output of the extracted model): a sample is re-evaluated inside Coq in the thorough tier
 # every run walks each kind of concatenation through this history (the demo of every spelling of a selection,
 # the empty ones after non-empty ones, with calls without flags= in between)
 CONCAT_FIXED = [{'flags': 'cam'}, {'flags': ''}, {'dumps': [1, 4]}, {'flags': 'static,data_lost'}, {'flags': []},
@@ -969,6 +995,7 @@ def run_concat(ctx, cfg):
                  for st in hist]
         if ctx.model_ok:
             mo = ctx.model([[162, [2, mwire, hwire]]])[0]
+            _INCOQ.append(([162, [2, mwire, hwire]], mo))
         else:
             mo = concat_py(cfg, len(hist))
         if mo == [-999] or len(mo) != len(hist) + 1:
